@@ -100,6 +100,11 @@ def run_property(pid, tier='quick', seed=0):
     from props import PROPS
     prop = PROPS[pid]
     timeout_ms = 10000 if tier == 'quick' else 60000
+    # second back end: every obligation z3 discharges is re-discharged with cvc5 in the thorough tier (VERIF_CVC5=1
+    # forces it in the quick tier too, VERIF_CVC5=0 switches it off)
+    from pyvc import cvc5x
+    if os.environ.get('VERIF_CVC5') is None and tier == 'thorough' and cvc5x.available():
+        os.environ['VERIF_CVC5'] = '1'
     os.makedirs(os.path.join(HERE, 'evidence'), exist_ok=True)
     os.makedirs(os.path.join(HERE, 'replay'), exist_ok=True)
     lines = []
@@ -227,6 +232,25 @@ def run_property(pid, tier='quick', seed=0):
                 bounded.append(b)
             except Exception as e:
                 errors.append((q, 'stand-in failed: %s: %s' % (type(e).__name__, e)))
+    # ------------------------------------------------------------------ second back end
+    second = {'asked': 0, 'unsat': 0, 'unknown_or_timeout': 0, 'front_end_error': 0, 'sat': 0, 'seconds': 0.0}
+    for q, o in all_obs:
+        sb2 = getattr(o, 'second', None)
+        if sb2 is None:
+            continue
+        second['asked'] += 1
+        second['seconds'] += sb2[1]
+        if sb2[0] == 'unsat':
+            second['unsat'] += 1
+        elif sb2[0] == 'sat':
+            second['sat'] += 1
+            errors.append(('backends-disagree:' + o.name, 'z3 discharged this obligation, cvc5 answers sat: one of the back '
+                           'ends (or the SMT-LIB export) is wrong; no verdict is given for it'))
+        elif sb2[0].startswith('error'):
+            second['front_end_error'] += 1
+        else:
+            second['unknown_or_timeout'] += 1
+    second['seconds'] = round(second['seconds'], 2)
     # ------------------------------------------------------------------ CPython cross-check of proved functions
     # every function whose obligations were all discharged and that has a native reading of its contract is also run
     # natively over that reading's small scope: a breach there means the verifier (or the contract's native twin) is
@@ -327,11 +351,20 @@ def run_property(pid, tier='quick', seed=0):
             seen_f.add(id(f))
             lines.append('KNOWN-FINDING: property=%s %s' % (pid, f.rest))
     stale = [f for f in findings if id(f) not in seen_f]
+    printed = {}
     for q, o, rep in violations:
         suffix = '' if rep.get('reproduced') else ' no-failing-input-found'
-        lines.append('VIOLATION property=%s replay=%s%s' % (pid, rep['path'], suffix))
+        head = 'VIOLATION property=%s replay=%s%s' % (pid, rep['path'], suffix)
+        if head in printed:
+            # several obligations of one function explained by the same replayed input: one VIOLATION line
+            if o is not None:
+                lines.insert(printed[head], '  failed obligation: %s' % o.name)
+                printed = {h: (i + 1 if i >= printed[head] else i) for h, i in printed.items()}
+            continue
+        lines.append(head)
         if o is not None:
             lines.append('  failed obligation: %s' % o.name)
+        printed[head] = len(lines)
         if rep.get('detail'):
             lines.append('  %s' % str(rep['detail'])[:400])
     obligations = len([1 for q, o in all_obs])
@@ -366,9 +399,12 @@ def run_property(pid, tier='quick', seed=0):
         'callee_contracts_used': sorted(contracts_used),
         'stub_witnesses': witnesses,
         'cpython_crosscheck': crosscheck,
+        'second_backend': dict(second, backend='cvc5 1.0.3 (/usr/bin/cvc5), asked in the thorough tier for every obligation z3 '
+                                               'discharged; see pyvc/cvc5x.py for the syntactic adaptation of the export'),
         'trusted_contracts_used': sorted(c for c in contracts_used if (_reg.get(c) is not None and _reg.get(c).trusted)),
         'inlined_helpers': sorted(inlined),
-        'backend': 'z3-solver 5.1.0 (python API), one solver per obligation',
+        'backend': 'z3-solver 5.1.0 (python API), one solver per obligation' + (
+            '; cvc5 1.0.3 re-discharges the proved ones (second_backend)' if second['asked'] else ''),
         'solver_seconds': round(solver_s, 3),
         'per_obligation': [dict(o.as_dict(), function=q) for q, o in all_obs][:400],
         'refuted': [o.name for q, o in refuted],
